@@ -87,13 +87,50 @@ func (p *Prog) Combinators() map[*types.Func]map[int]Comb {
 			p.combMissing = append(p.combMissing, d.Fn)
 			continue
 		}
-		arg := d.Arg
+		arg := fixArg(f, d.Arg)
 		if p.combs[f] == nil {
 			p.combs[f] = map[int]Comb{}
 		}
 		p.combs[f][arg] = Comb{Mode: d.Mode, Async: d.Async}
 	}
 	return p.combs
+}
+
+// fixArg keeps a table's argument index valid when a signature was reordered:
+// if the parameter at the recorded index (receiver = 0 for methods) is no
+// longer function-typed and exactly one parameter is, that one is meant.
+func fixArg(f *types.Func, arg int) int {
+	sig, ok := f.Type().(*types.Signature)
+	if !ok {
+		return arg
+	}
+	off := 0
+	if sig.Recv() != nil {
+		off = 1
+	}
+	isFn := func(i int) bool {
+		if i < 0 || i >= sig.Params().Len() {
+			return false
+		}
+		_, ok := sig.Params().At(i).Type().Underlying().(*types.Signature)
+		return ok
+	}
+	if isFn(arg - off) {
+		return arg
+	}
+	hit := -1
+	for i := 0; i < sig.Params().Len(); i++ {
+		if isFn(i) {
+			if hit >= 0 {
+				return arg
+			}
+			hit = i
+		}
+	}
+	if hit >= 0 {
+		return hit + off
+	}
+	return arg
 }
 
 // lookupFunc resolves "pkg.Type.Method" or "pkg.Func".
